@@ -11,9 +11,9 @@
    checked by correspondence (pretty-printing generated ASTs under all spellings/layouts and comparing the parser's
    ASTs and the verdicts; tools/gv/props/c14.py). *)
 From GV.Model Require Import Ast Spec.
-From GV.Model Require Import Lex ValueParse QueryParse OpParse ClauseParse CnfParse.
+From GV.Model Require Import Lex ValueParse QueryParse OpParse ClauseParse CnfParse FilterParse.
 From GV.Proofs Require Import LexProps ValueParseProps ValueSpellProps ValueSpellExample.
-From GV.Proofs Require Import QueryParseProps QuerySpellProps QuerySpellExample ThisProps OpParseProps ClauseParseProps ClauseSpellProps ClauseSpellExample CnfParseProps.
+From GV.Proofs Require Import QueryParseProps QuerySpellProps QuerySpellExample ThisProps OpParseProps ClauseParseProps ClauseSpellProps ClauseSpellExample CnfParseProps OpSoundProps ClauseFuelProps CnfSpellProps CnfSpellExample FilterParseProps.
 
 Theorem C14_keyword_tables_are_the_documented_ones :
   set_eqb kw_in_keyword ["in"; "IN"] = true /\ set_eqb kw_keys ["keys"; "KEYS"] = true /\
@@ -261,3 +261,52 @@ Print Assumptions C14_or_synonyms_in_a_line.
 Theorem C14_conditions_parser_answers : forall rv s, single_clauses_top rv s <> POof.
 Proof. exact conditions_parser_answers. Qed.
 Print Assumptions C14_conditions_parser_answers.
+
+(* the converse for operators: whatever is accepted as an operator is one of the documented spellings - a symbol, a keyword of the
+   tables in one of its two cases, optionally behind not / NOT and blanks or ! - and stands for what that spelling stands for *)
+Theorem C14_only_documented_operators : forall s c r, value_cmp s = POk c r -> exists sp, operator_spelling sp c /\ s = sp +++ r.
+Proof. exact only_documented_operators. Qed.
+Print Assumptions C14_only_documented_operators.
+
+Theorem C14_clause_parser_fuel_irrelevant : forall rv n s, (String.length s < n)%nat -> clause rv n s = clause_top rv s.
+Proof. exact clause_fuel_irrelevant. Qed.
+Print Assumptions C14_clause_parser_fuel_irrelevant.
+
+(* every concrete spelling of the conditions of a `when` - lines with any layout (blank lines, comments) in front, alternatives that
+   are any spelling of an access clause or a reference to a named rule (negated, with a message), joined by or / OR / |OR| with
+   any layout around - parses to those conditions *)
+Theorem C14_every_spelling_of_conditions_parses : forall rv l0 ls tail, lines_ok rv (l0 :: ls) tail ->
+  or_join (after (final_alt ls (last_alt l0)) tail) = None ->
+  (forall m, when_elem rv m (skip_ws_comments (after (final_alt ls (last_alt l0)) tail)) = PErr) ->
+  single_clauses_top rv (render_conds rv (l0 :: ls) +++ tail) = POk (map denote_line (l0 :: ls)) (after (final_alt ls (last_alt l0)) tail).
+Proof. exact conditions_spelling_parses. Qed.
+Print Assumptions C14_every_spelling_of_conditions_parses.
+
+(* the conditions end where a block opens *)
+Theorem C14_conditions_end_at_a_brace : forall rv prev w r, layout w ->
+  or_join (after prev (w +++ String "{" r)) = None /\ (forall m, when_elem rv m (skip_ws_comments (after prev (w +++ String "{" r))) = PErr).
+Proof. exact conditions_end_at_a_brace. Qed.
+Print Assumptions C14_conditions_end_at_a_brace.
+
+(* the premises are met: three lines - a negated comparison OR (over a line break) a comparison with a message; after a comment a
+   `!` clause; a negated rule reference with a message |OR| a plain reference - ending where the block opens *)
+Theorem C14_conditions_spelling_instance :
+  single_clauses_top rv0 (render_conds rv0 ex_lines +++ ex_tail) =
+  POk [[PWClause (mkPC true (AccessQuery [QKey "%b"; QAllIndices None; QKey "Size"] true) (OGe, false) (Some (RLit (VInt 10))) None);
+        PWClause (mkPC false (AccessQuery [QThis; QKey "Mode"] true) (OEq, false) (Some (RLit (VStr "strict"))) (Some "mode"))];
+       [PWClause (mkPC true (AccessQuery [QKey "Tags"] true) (OEmpty, false) None None)];
+       [PWNamed (mkPN "other_rule" true (Some "see docs")); PWNamed (mkPN "r2" false None)]] (" {" +++ nl).
+Proof. exact ex_conditions_parse. Qed.
+Print Assumptions C14_conditions_spelling_instance.
+
+(* ---- queries with filters (Model/FilterParse.v: keys filters and one level of `[ clauses ]`) ---- *)
+
+(* the parser with filters answers exactly what the filter-free parser answers wherever that one answers at all: every theorem
+   above about spellings of filter-free queries holds for it *)
+Theorem C14_filter_parser_extends_the_query_parser : forall rv s x, access_top s = x -> x <> PUnk -> access_f_top rv s = pmap embed x.
+Proof. exact access_f_top_extends. Qed.
+Print Assumptions C14_filter_parser_extends_the_query_parser.
+
+Theorem C14_filter_parser_answers : forall rv s, access_f_top rv s <> POof.
+Proof. exact access_f_answers. Qed.
+Print Assumptions C14_filter_parser_answers.
